@@ -376,6 +376,8 @@ func c17(c *an.Ctx) {
 		}
 	})
 
+	c.Check("R-LOCK+R-DOM", "stops for good: no run of a subscription's rerunner starts after Stop (compute call under r.mu after the r.stop test)", 3, func(o *an.O) { ruleRunUnderLock(c, o) })
+
 	c.Check("R-POST", "conn.ServeJSONSocket defers closeSubscriptions before the first read", 2, func(o *an.O) {
 		fn := c.NeedFunc(gq, "(*conn).ServeJSONSocket")
 		var d []ssa.Instruction
